@@ -79,6 +79,37 @@ let rules_of_spec spec =
     | _ -> failwith "rule") (String.split_on_char ',' spec))
 let optn s = if s = "-" then None else Some (n_of_int (int_of_string s))
 
+
+(* ---- bisync ---- *)
+let fent_of t = if t = "-" then None else match String.split_on_char ':' t with
+  | [a; b] -> Some { f_size = n_of_int (int_of_string a); f_mtime = z_of_int (int_of_string b); f_content = N0 } | _ -> failwith "fent"
+let srec_of t = if t = "-" then None else match String.split_on_char ':' t with
+  | [a; b] -> Some { s_mtime = z_of_int (int_of_string a); s_size = n_of_int (int_of_string b) } | _ -> failwith "srec"
+let chg_name = function
+  | NewInSource -> "NewInSource" | NewInDest -> "NewInDest" | ModifiedInSource -> "ModifiedInSource"
+  | ModifiedInDest -> "ModifiedInDest" | DeletedFromSource -> "DeletedFromSource" | DeletedFromDest -> "DeletedFromDest"
+  | ModifiedBoth -> "ModifiedBoth" | CreateCreateConflict -> "CreateCreateConflict" | ModifyDeleteConflict -> "ModifyDeleteConflict"
+let act_name = function
+  | CopyToSource -> "CopyToSource" | CopyToDest -> "CopyToDest" | DeleteFromSource -> "DeleteFromSource"
+  | DeleteFromDest -> "DeleteFromDest" | RenameConflict -> "RenameConflict"
+let strat_of = function
+  | "newer" -> Newer | "larger" -> Larger | "smaller" -> Smaller | "source" -> PreferSource | "dest" -> PreferDest | _ -> RenameBoth
+let all_strats = [Newer; Larger; Smaller; PreferSource; PreferDest; RenameBoth]
+let bisync_universe (ids : int list) : int list =
+  let l1 = List.concat_map (fun p -> [4*p+1; 4*p+2]) ids in
+  let l2 = List.concat_map (fun p -> [4*p+1; 4*p+2]) l1 in
+  List.sort_uniq compare (ids @ l1 @ l2)
+let fmt_side (u : int list) (m : n -> fent option) =
+  String.concat "," (List.filter_map (fun p -> match m (n_of_int p) with
+    | Some f -> Some (Printf.sprintf "%d=%d/%d/%d" p (int_of_n f.f_size) (int_of_n f.f_content) (int_of_z f.f_mtime))
+    | None -> None) u)
+let fmt_db (u : int list) (w : world) =
+  let f = function Some r -> Printf.sprintf "%d/%d" (int_of_z r.s_mtime) (int_of_n r.s_size) | None -> "-" in
+  String.concat "," (List.filter_map (fun p ->
+    match w.w_dbs (n_of_int p), w.w_dbd (n_of_int p) with
+    | None, None -> None
+    | a, b -> Some (Printf.sprintf "%d=S:%s|D:%s" p (f a) (f b))) u)
+
 let app_str old = function
   | None -> "NOOPS"
   | Some ops -> (match apply old ops with None -> "ERR" | Some l -> hex_of_bytes l)
@@ -128,6 +159,34 @@ let handle (toks : string list) : string =
          (* entries are distinct by path, recover indexes by physical position *)
          let idx = List.filter_map (fun (i, e) -> if List.exists (fun s -> s == e) sel then Some (string_of_int i) else None) es in
          Printf.sprintf "wf=%d sel=%s" (if listing_ok (List.map snd es) then 1 else 0) (if idx = [] then "-" else String.concat "," idx))
+  | ["K"; s; d; ps; pd] ->
+      let s = fent_of s and d = fent_of d and ps = srec_of ps and pd = srec_of pd in
+      (match classify s d ps pd with
+       | None -> "chg=none acts=-"
+       | Some c ->
+         let acts = List.map (fun st -> match resolve st c s d with Some a -> act_name a | None -> "") all_strats in
+         Printf.sprintf "chg=%s acts=%s" (chg_name c) (String.concat "," acts))
+  | ["H"; steps] ->
+      let steps = String.split_on_char ';' steps in
+      let ids = List.sort_uniq compare (List.filter_map (fun st -> match String.split_on_char ':' st with
+        | "e" :: _ :: id :: _ -> Some (int_of_string id) | _ -> None) steps) in
+      let u = bisync_universe ids in
+      let un = List.map n_of_int u in
+      let out = ref [] in
+      let _ = List.fold_left (fun (t, w) st ->
+        let t' = t + 1 in
+        match String.split_on_char ':' st with
+        | ["e"; sd; id; kind; size; content] ->
+            let e = (match kind with "c" -> Create (n_of_int (int_of_string size), n_of_int (int_of_string content)) | "d" -> Delete | _ -> Touch) in
+            let stp = Edit ((if sd = "S" then Source else Dest), n_of_int (int_of_string id), e) in
+            let (_, w') = run_step un (z_of_int t, w) stp in (t', w')
+        | ["s"; stname; maxdel] ->
+            let r = bisync un (strat_of stname) (n_of_int (int_of_string maxdel)) (z_of_int t') w in
+            let (status, w') = (match r with Some w' -> ("ok", w') | None -> ("refused", w)) in
+            out := Printf.sprintf "%s src{%s} dst{%s} db{%s}" status (fmt_side u w'.w_src) (fmt_side u w'.w_dst) (fmt_db u w') :: !out;
+            (t', w')
+        | _ -> failwith "step") (0, empty_world) steps in
+      if !out = [] then "-" else String.concat " ; " (List.rev !out)
   | _ -> "BADCASE"
 
 let () =
